@@ -187,7 +187,59 @@ Record pump_rec := { p_name : string; p_degree : nat; p_points : list knot }.
 
 Record pipe_rec := {
   s_name : string; s_inner_diameter_mm : option Q; s_outer_diameter_mm : option Q;
-  s_k_mm : option Q; s_u_w_per_m2k : option Q }.
+  s_k_mm : option Q; s_u_w_per_m2k : option Q; s_u_w_per_mk : option Q }.
+
+(* ------------------------------------------------------------------ create_pipe(std_type=...) *)
+(* a library parameter by its column name *)
+Definition std_field (key : string) (s : pipe_rec) : option Q :=
+  if String.eqb key "inner_diameter_mm" then s_inner_diameter_mm s
+  else if String.eqb key "outer_diameter_mm" then s_outer_diameter_mm s
+  else if String.eqb key "k_mm" then s_k_mm s
+  else if String.eqb key "u_w_per_m2k" then s_u_w_per_m2k s
+  else if String.eqb key "u_w_per_mk" then s_u_w_per_mk s
+  else None.
+
+Inductive cell := CVal (v : option Q)    (* the library number, None = NaN / absent *)
+                | CDerived               (* computed by retrieve_u from u_w_per_mk (involves pi): monitor only *)
+                | CNotFromStdType.
+
+(* create_pipe: pipe_parameter = retrieve_u(load_std_type(...)); v[col] = pipe_parameter[key] for the pairs
+   of [mapping] (regenerated from create.py); retrieve_u only assigns the keys [writes] (regenerated) and
+   derives u_w_per_m2k exactly when u_w_per_mk is given *)
+Fixpoint assoc_str (k : string) (l : list (string * string)) : option string :=
+  match l with [] => None | (a, b) :: r => if String.eqb k a then Some b else assoc_str k r end.
+
+Definition created_cell (mapping : list (string * string)) (writes : list string) (col : string) (s : pipe_rec) : cell :=
+  match assoc_str col mapping with
+  | None => CNotFromStdType
+  | Some key =>
+      if existsb (String.eqb key) writes then
+        (if String.eqb key "u_w_per_m2k" then
+           match s_u_w_per_mk s with Some _ => CDerived | None => CVal (std_field key s) end
+         else CDerived)
+      else CVal (std_field key s)
+  end.
+
+Definition std_columns : list string := ["inner_diameter_mm"; "outer_diameter_mm"; "k_mm"; "u_w_per_m2k"]%string.
+
+Definition reaches_unchanged (mapping : list (string * string)) (writes : list string) (s : pipe_rec) : bool :=
+  forallb (fun col => match created_cell mapping writes col s with
+                      | CVal v => match v, std_field col s with
+                                  | Some a, Some b => Qeq_bool a b | None, None => true | _, _ => false end
+                      | CDerived => String.eqb col "u_w_per_m2k" &&
+                                    match s_u_w_per_mk s, s_u_w_per_m2k s with Some _, None => true | _, _ => false end
+                      | CNotFromStdType => false end) std_columns.
+
+(* the created float cell is the double nearest to the decimal library number: |cell - lib| <= |lib| 2^-53 *)
+Definition nearest_double_b (lib cellv : Q) : bool :=
+  Qle_bool (Qabs (cellv - lib)) (Qabs lib * (1 # 9007199254740992)).
+Definition cell_matches (c : cell) (observed : option Q) : bool :=
+  match c, observed with
+  | CVal (Some l), Some o => nearest_double_b l o
+  | CVal None, None => true
+  | CDerived, Some _ => true
+  | _, _ => false
+  end.
 
 Fixpoint distinct_abscissae (ks : list knot) : bool :=
   match ks with
